@@ -554,4 +554,112 @@ def add_law_lemmas():
     same = lambda x, y: z3.ForAll([k, m, s], x[k, m, s] == y[k, m, s])
     return [('add is idempotent: add(add(V, A), A) == add(V, A)', same(add(add(V, A), A), add(V, A))),
             ('add is order-independent: add(add(V, A), B) == add(add(V, B), A)', same(add(add(V, A), B), add(add(V, B), A))),
-            ('after adding, the added pairs are reported: A is a subset of add(V, A)', z3.ForAll([k, m, s], z3.Implies(A[k, m, s], add(V, A)[k, m, s])))]
+            ('after adding, the added pairs are reported: A is a subset of add(V, A)', z3.ForAll([k, m, s], z3.Implies(A[k, m, s], add(V, A)[k, m, s]))),
+            ('removing what was just added restores the previous set (for pairs that were not there before): remove(add(V, A), A) == V when V and A are disjoint',
+             z3.Implies(z3.ForAll([k, m, s], z3.Not(z3.And(V[k, m, s], A[k, m, s]))),
+                        same(z3.Lambda([k, m, s], z3.And(add(V, A)[k, m, s], z3.Not(A[k, m, s]))), V)))]
+
+
+# ------------------------------------------------------------------ granular remove_markings: view(result) == view(object) minus the named pairs; MarkingNotFoundError iff none of them is there
+def granular_remove_contract():
+    base = granular_add_contract()
+    K_, M_, S_ = z3.Bool('k!gr'), z3.String('m!gr'), z3.String('s!gr')
+    empty = z3.Lambda([K_, M_, S_], z3.BoolVal(False))
+
+    def view_of(v):
+        if v.sort == 'litlist' and not v.x: return empty
+        if v.sort == 'triples': return v.t
+        if v.sort == 'none': return empty
+        return None
+
+    def entry(is_ref):
+        def h(x, e, p):
+            m = p.env['m']; sels = p.env['selectors']
+            if m.sort != 'str' or sels.sort != 'selset': raise Unsupported('entry literal over ' + m.sort + ' / ' + sels.sort)
+            yield p, Val('triples', z3.Lambda([K_, M_, S_], z3.And(K_ == z3.BoolVal(is_ref), M_ == m.t, sels.t[S_])))
+        return h
+
+    def hook_build(x, e, p):
+        # utils.build_granular_marking(to_remove).get('granular_markings') == expand_markings(to_remove): the same triples (callee contract, proved)
+        v = view_of(p.env['to_remove'])
+        if v is None: raise Unsupported('build_granular_marking of ' + p.env['to_remove'].sort)
+        yield p, Val('triples', v)
+
+    def hook_any(x, e, p):
+        k, m, s = z3.Bool('k!an'), z3.String('m!an'), z3.String('s!an')
+        r, g = view_of(p.env['remove']), view_of(p.env['granular_markings'])
+        if r is None or g is None: raise Unsupported('any(...) over unmodelled lists')
+        yield p, Bool(z3.Exists([k, m, s], z3.And(r[k, m, s], g[k, m, s])))
+
+    def hook_filter(x, e, p):
+        r, g = view_of(p.env['remove']), view_of(p.env['granular_markings'])
+        if r is None or g is None: raise Unsupported('filter comprehension over unmodelled lists')
+        yield p, Val('triples', z3.Lambda([K_, M_, S_], z3.And(g[K_, M_, S_], z3.Not(r[K_, M_, S_]))), x={'of': 'filtered'})
+
+    def h_compress(x, e, p, site):
+        for p1, vs in x.ev_seq(list(e.args), p):
+            if isinstance(vs, Exc): yield p1, vs; continue
+            v = view_of(vs[0])
+            if v is None: raise Unsupported(site + ' compress of ' + vs[0].sort)
+            k, m, s = z3.Bool('k!wf'), z3.String('m!wf'), z3.String('s!wf')
+            x.oblige('call(utils.compress_markings).requires: marking_ref entries hold marking ids, lang entries do not', p1.pc, z3.ForAll([k, m, s], z3.Implies(v[k, m, s], k == ISMARK(m))), p1.exact, 'call-requires')
+            yield p1, Val('triples', v, x={'of': 'compressed'})       # (None for an empty list: falsy either way)
+
+    def h_new_version(x, e, p, site):
+        kws = {k.arg: k.value for k in e.keywords}
+        ok = [ast.unparse(a) for a in e.args] == ['obj'] and set(kws) == {'granular_markings', 'allow_custom'}
+        x.oblige('call(new_version): the new version is made from this object, changing granular_markings only', p.pc, z3.BoolVal(bool(ok)), p.exact, 'call-requires')
+        if not ok: raise Unsupported(site + ' new_version call shape')
+        for p1, v in x.ev(kws['granular_markings'], p):
+            if isinstance(v, Exc): yield p1, v; continue
+            vv = view_of(v)
+            if vv is None: raise Unsupported(site + ' granular_markings argument of sort ' + v.sort)
+            yield p1.fork(), Exc('InvalidValueError', site)
+            yield p1, Val('newobj', vv)
+
+    def truthy_triples(x, v):
+        tag = (v.x or {}).get('of')
+        if tag == 'obj': return OBJ_HAS
+        k, m, s = z3.Bool('k!tt'), z3.String('m!tt'), z3.String('s!tt')
+        return z3.Exists([k, m, s], v.t[k, m, s])          # a compressed / expanded list is empty exactly when it has no triple
+
+    def named(k, m, s):
+        j = z3.Int('j!nm')
+        return z3.Exists([j], z3.And(0 <= j, j < MK_N, MK(j) == m, k == ISMARK(m), SELQ[s]))
+
+    def inv(x, env, i, it):
+        k, m, s = z3.Bool('k!ri'), z3.String('m!ri'), z3.String('s!ri'); j = z3.Int('j!ri')
+        view = view_of(env['to_remove'])
+        return z3.ForAll([k, m, s], view[k, m, s] == z3.Exists([j], z3.And(0 <= j, j < i, MK(j) == m, k == ISMARK(m), SELQ[s])))
+
+    def ens(a, r):
+        k, m, s = z3.Bool('k!re'), z3.String('m!re'), z3.String('s!re')
+        if r.sort == 'markedobj': view = OBJ_VIEW          # the object itself is returned: nothing to remove from an object without granular markings
+        elif r.sort == 'newobj': view = r.t
+        else: return z3.BoolVal(False)
+        return z3.ForAll([k, m, s], view[k, m, s] == z3.And(OBJ_VIEW[k, m, s], z3.Not(named(k, m, s))))
+
+    def not_found(a):
+        k, m, s = z3.Bool('k!nf'), z3.String('m!nf'), z3.String('s!nf')
+        return z3.And(OBJ_HAS, z3.Not(z3.Exists([k, m, s], z3.And(OBJ_VIEW[k, m, s], named(k, m, s)))))
+
+    def outcomes(x, outs, add):
+        for i, (kind, p, v) in enumerate(outs):
+            if kind == 'return':
+                add(f'the selectors were validated against the object on the way to this result @path{i}', p.pc, z3.BoolVal(bool(p.ghost.get('validated'))), p.exact)
+    handlers = dict(base.handlers); handlers.update({'utils.compress_markings': h_compress, 'new_version': h_new_version})
+    ANY1 = 'any((marking in granular_markings for marking in remove))'
+    return Contract(f'{GRAN}::remove_markings', props=['C07'], on_outcomes=outcomes, params={'obj': Val('markedobj', x={}), 'marking': 'opaque', 'selectors': 'opaque'},
+                    requires=list(base.requires) + [('an object that has granular markings has at least one (kind, marking, selector) triple', lambda a: z3.Implies(OBJ_HAS, truthy_triples(None, Val('triples', OBJ_VIEW))))],
+                    ensures=[('view(result) == view(object) minus { (kind(m), m, s) | m among the markings, s among the selectors } -- exactly those pairs go, everything else stays', ens)],
+                    raises={'InvalidSelectorError': None, 'InvalidValueError': None, 'MarkingNotFoundError': not_found},
+                    handlers=handlers,
+                    expr_hooks={"{'marking_ref': m, 'selectors': selectors}": entry(True), "{'lang': m, 'selectors': selectors}": entry(False),
+                                "utils.build_granular_marking(to_remove).get('granular_markings')": hook_build, ANY1: hook_any,
+                                'not any((marking in granular_markings for marking in remove))': lambda x, e, p: ((q, Bool(z3.Not(v.t))) for q, v in hook_any(x, e, p))},
+                    comprehensions={'[m for m in granular_markings if m not in remove]': hook_filter},
+                    registry_ext=base.registry_ext, truthy_handlers={'triples': truthy_triples},
+                    loops={0: {'kind': 'inv', 'inv': inv}},
+                    havoc={'to_remove': lambda v: Val('triples', z3.FreshConst(TripleSet, 'to_remove'))},
+                    assumptions=['callee contracts of granular remove_markings: expand_markings / build_granular_marking / compress_markings (proved: the same triples), utils.validate, new_version; '
+                                 'an entry of an expanded list is equal to another exactly when they are the same (kind, marking, selector) triple'])
